@@ -81,6 +81,28 @@ pub fn regex_case(tape: &[u32], style: u8, seq_raw: &[Vec<u16>], gap_seed: u64) 
     Case11 { pipe, style, cache: [1usize, 2, 3, 64][t.below(4)], pool, seqs, gap_seed }
 }
 
+/// one very long sequence (tens of KiB of input) over a pool of values with long tokens:
+/// whatever is buffered, counted or cached per run gets exercised across many refills
+pub fn long_case(tape: &[u32], style: u8, gap_seed: u64) -> Case11 {
+    let mut t = Tape::new(tape);
+    let mut pipe = EPipe { sets: vec![], split: None, filter: None, selects: vec![] };
+    match t.below(3) {
+        0 => {}
+        1 => {
+            pipe.filter = Some(Expr::call("number?", vec![Expr::dot()]));
+            pipe.selects.push((Expr::call("+", vec![Expr::dot(), Expr::lit("1")]), "next".into()));
+        }
+        _ => pipe.selects.push((Expr::call("stringify", vec![Expr::dot()]), "s".into())),
+    }
+    let toks = ["123456789012345", "9876543210.12345", "\"abcdefghij klmnop\"", "{\"key\":[1,2,{\"x\":\"y\"}]}", "1", "[]", "\"\\u00e9t\\u00e9 \u{65e5}\u{672c}\"", "-77777777777", "true", "[12345678,87654321]"];
+    let np = 2 + t.below(5);
+    let pool: Vec<String> = (0..np).map(|_| t.pick_s(&toks).to_string()).collect();
+    let n = 1200 + t.below(3000);
+    let mut m = Mix(gap_seed ^ 0xabc);
+    let seq: Vec<usize> = (0..n).map(|_| m.below(pool.len() as u64) as usize).collect();
+    Case11 { pipe, style: style % 6, cache: 0, pool, seqs: vec![seq], gap_seed }
+}
+
 fn concat_input(pool: &[String], seq: &[usize], seed: u64) -> Vec<u8> {
     let mut m = Mix(seed);
     let mut out = String::new();
@@ -114,7 +136,15 @@ impl Check for C11Local {
     }
     fn strategy(&self, _t: Tier) -> BoxedStrategy<Case11> {
         (any::<u8>(), vec(any::<u32>(), 0..400), 0u8..8, prop::sample::select(vec![0usize, 0, 1, 2, 64]), vec(vec(any::<u16>(), 0..20), 1..5), any::<u64>())
-            .prop_map(|(which, tape, style, cache, seqs, gs)| if which % 6 == 0 { regex_case(&tape, style.min(5), &seqs, gs) } else { decode_case(&tape, style, cache, &seqs, gs) })
+            .prop_map(|(which, tape, style, cache, seqs, gs)| {
+                if which % 6 == 0 {
+                    regex_case(&tape, style.min(5), &seqs, gs)
+                } else if which % 29 == 1 {
+                    long_case(&tape, style, gs)
+                } else {
+                    decode_case(&tape, style, cache, &seqs, gs)
+                }
+            })
             .boxed()
     }
     fn check(&self, case: &Case11) -> CaseResult {
@@ -195,6 +225,7 @@ impl Check for C11Local {
                 .class_if(case.pipe.any_expr(&|e| matches!(e, Expr::Sel(_))), "back_reference")
                 .class_if(uneven, "some_value_yields_0_or_many_rows")
                 .class_if(!header.is_empty(), "header")
+                .class_if(case.seqs.iter().any(|q| q.len() > 1000), "long_sequence")
                 .weight((case.pool.len() + case.seqs.len()) as u64)
                 .obs(json!({"args": args, "outs": outs.iter().take(3).map(|o| esc_trunc(o, 120)).collect::<Vec<_>>()})),
         )
